@@ -82,7 +82,7 @@ fn c03_s_client() {
 
 /// C03: M1 with the xor value computed for the announced group
 #[kani::proof]
-#[kani::unwind(200)]
+#[kani::unwind(42)]
 #[kani::stub(core::str::from_utf8, verif_oracle::from_utf8_model)]
 fn c03_m1_custom() {
     let name = any_name(16);
